@@ -636,6 +636,23 @@ def run(prop, tier, seed):
             gen_ok, gout = runner.lake_build(["gendrv"])
             if not gen_ok:
                 proof_log += "\n[gendrv] " + gout[-3000:]
+        strict_broken = None
+        uses_gen = any(d == "gendrv" for _, d, _ in (P.streams or []))
+        if not proof_ok or not gen_ok:
+            # The first way of the tie - theorems over the facts regenerated from the source - no longer
+            # checks.  That alone does not say the property fails (a rewrite the translator cannot follow
+            # breaks it too).  Second way: the facts recorded from the last reviewed tree (extract/baseline)
+            # + the correspondence of the drivers built from them with the code as it is now.
+            strict_log = proof_log
+            if runner.restore_baseline():
+                ok2, log2 = runner.lake_build([P.lean_module])
+                g2 = True
+                if uses_gen and ok2:
+                    g2, _ = runner.lake_build(["gendrv"])
+                if ok2 and g2:
+                    strict_broken = dict(theorems=(runner.broken_theorems(strict_log)[:8] or ["lake build " + P.lean_module]),
+                                         log=strict_log[-2500:])
+                    proof_ok, gen_ok, proof_log = True, True, log2
         thms, audit_ok, audit_log = [], False, ""
         if proof_ok:
             audit_ok, thms, audit_log = runner.audit(P.lean_module)
@@ -707,7 +724,7 @@ def run(prop, tier, seed):
 
     new_findings = [f for f in all_findings if not runner.match_known(prop, f, known)]
     # escalate the search when something broke but no failing input is at hand
-    if (proof_broken or all_dis) and not new_findings and tier == "quick":
+    if (proof_broken or all_dis or strict_broken) and not new_findings and tier == "quick":
         for s in (seed + 101, seed + 202):
             one(s, getattr(P, "escalate_budget", P.budgets["thorough"]), "esc%d" % s)
         new_findings = [f for f in all_findings if not runner.match_known(prop, f, known)]
@@ -730,7 +747,7 @@ def run(prop, tier, seed):
             how="the operation line `input` run against the real code by harness/cmd/%s; `detail` is what the oracle saw" % P.harness,
             replay_cmd="cd %s && VERIF_SEED=%d ./check %s %s" % (ROOT, f.get("seed", seed), prop, tier),
             more=[dict(kind=g["kind"], input=g["op"][:2000], detail=g["detail"][:1000]) for g in new_findings[1:10]],
-            proof_obligation_broken=broken_names if proof_broken else [],
+            proof_obligation_broken=(broken_names if proof_broken else []) + (strict_broken["theorems"] if strict_broken else []),
             correspondence_disagreements=all_dis[:5]))
         lines.append("VIOLATION property=%s replay=%s" % (prop, path))
         verdict = 1
@@ -746,6 +763,10 @@ def run(prop, tier, seed):
             replay_cmd="cd %s && VERIF_SEED=%d ./check %s %s" % (ROOT, seed, prop, tier)))
         lines.append("VIOLATION property=%s replay=%s no-failing-input-found" % (prop, path))
         verdict = 1
+    elif strict_broken:
+        lines.append("NOTE: property=%s the theorems over the facts regenerated from the source no longer check (%s); "
+                     "the recorded model (extract/baseline) and its correspondence with the code as it is now hold on "
+                     "%d operations, no failing input" % (prop, ", ".join(strict_broken["theorems"][:3]), evaluations))
 
     ev = dict(
         property_id=prop, tier=tier, seed=seed, level="proof",
@@ -764,7 +785,9 @@ def run(prop, tier, seed):
             oracle_findings=len(all_findings), oracle_findings_known=len(all_findings) - len(new_findings),
             exhaustive=False,
         ),
-        assumptions=list(P.assumptions) + (["PARTIAL: " + P.partial] if P.partial else []),
+        assumptions=list(P.assumptions) + (["PARTIAL: " + P.partial] if P.partial else []) + (
+            ["TIE DEGRADED ON THIS RUN: the theorems over the regenerated facts did not check (%s); decided by the recorded "
+             "model (extract/baseline) + correspondence" % ", ".join(strict_broken["theorems"][:5])] if strict_broken else []),
         wall_s=round(time.time() - t0, 2), violations=len(new_findings) + (1 if verdict and not new_findings else 0))
     runner.write_evidence(prop, ev)
     for l in lines:
